@@ -25,7 +25,9 @@ type pending struct {
 	input    string  // what is reported
 	impl     []Event // implementation trace (filtered)
 	world    *World
-	compare  bool // trace comparison is meaningful (no timer can have fired unexpectedly)
+	rerun    func() ([]Event, *World) // run the same scenario once more (a disagreement must reproduce)
+	racy     bool                     // the run took a scheduler-decided branch (not compared, counted separately)
+	compare  bool                     // trace comparison is meaningful (no timer can have fired unexpectedly)
 	implSafe bool
 	implDone bool
 	checkLn  string
@@ -34,10 +36,11 @@ type pending struct {
 
 // Runner accumulates cases and talks to the model driver in batches.
 type Runner struct {
-	C     *hc.Ctx
-	Opt   Options
-	cases []pending
-	err   error
+	C      *hc.Ctx
+	Opt    Options
+	cases  []pending
+	err    error
+	reruns int // second runs made to see whether a disagreement reproduces (bounded)
 }
 
 func relevant(tr []Event) []Event {
@@ -110,6 +113,29 @@ func (r *Runner) Evaluate(sc Scenario, pushedPlain map[int]bool) {
 		c.Count("harness.barrier-resent")
 		c.Note("harness: %d channel barrier(s) re-sent in %s", out.Retries, line)
 	}
+	// position-less updates forwarded inside a difference count as pushed only if an answer really
+	// carried them (extras attached to a channel that never asks again are never sent), and not if the
+	// forwarded container may be dropped as a whole (a message from a user with an unknown access hash)
+	if pushedPlain != nil {
+		pp := map[int]bool{}
+		for id := range pushedPlain {
+			pp[id] = true
+		}
+		for _, sv := range out.World.Served {
+			gated := false
+			for _, id := range sv.Extras {
+				if en, _, ok := out.World.entry(id); ok && en.User != 0 {
+					gated = true
+				}
+			}
+			for _, id := range sv.Extras {
+				if en, _, ok := out.World.entry(id); ok && en.Kind == KPlain && !gated {
+					pp[id] = true
+				}
+			}
+		}
+		pushedPlain = pp
+	}
 	init := out.World.InitialSnapshot()
 	v3 := CheckC03(out.World, out.Trace, init)
 	v2 := CheckC02(out.World, out.Trace, pushedPlain, nil, init)
@@ -171,6 +197,9 @@ func (r *Runner) Evaluate(sc Scenario, pushedPlain map[int]bool) {
 		return
 	}
 	c.Eval(line, gap)
+	if out.Racy != "" {
+		c.Count("trace.not-compared(" + out.Racy + ")")
+	}
 	impl := relevant(out.Trace)
 	fp, fq, _ := snapWords(init)
 	// the implementation's trace is judged for the sequences that had a worker
@@ -189,7 +218,15 @@ func (r *Runner) Evaluate(sc Scenario, pushedPlain map[int]bool) {
 	}
 	fc := storedWord(liveStored, never) + " " + createdWord(liveCreated, never)
 	p := pending{line: line, input: line, impl: impl, world: out.World,
-		compare:  out.Elapsed-time.Duration(countW(all))*650*time.Millisecond < 400*time.Millisecond,
+		rerun: func() ([]Event, *World) {
+			o2 := sc.Run(nil, false, all, nil)
+			if o2.Err != "" || o2.Racy != "" {
+				return nil, nil
+			}
+			return relevant(o2.Trace), o2.World
+		},
+		racy:     out.Racy != "",
+		compare:  out.Racy == "" && out.Elapsed-time.Duration(countW(all))*650*time.Millisecond < 400*time.Millisecond,
 		implSafe: len(v3) == 0, implDone: len(v2) == 0, wantWF: true,
 		checkLn: strings.Join([]string{"check", fp, fq, fc, chanWords(sc), logWords(sc), FormatTrace(impl)}, " ")}
 	r.cases = append(r.cases, p)
@@ -309,7 +346,14 @@ func (r *Runner) restart(sc Scenario, first Outcome, i int, line string) {
 	// the union clause is not what the model's `complete` says for the second run alone, so only the
 	// trace and `safe` are compared for restart runs
 	r.cases = append(r.cases, pending{line: rline, input: input, impl: impl, world: out.World,
-		compare: out.Elapsed < 400*time.Millisecond, implSafe: len(v3) == 0, implDone: true, wantWF: true,
+		rerun: func() ([]Event, *World) {
+			o2 := sc.Run(&snap, true, fin, known)
+			if o2.Err != "" || o2.Racy != "" {
+				return nil, nil
+			}
+			return relevant(o2.Trace), o2.World
+		},
+		racy: out.Racy != "", compare: out.Racy == "" && out.Elapsed < 400*time.Millisecond, implSafe: len(v3) == 0, implDone: true, wantWF: true,
 		checkLn: ""})
 }
 
@@ -428,33 +472,46 @@ func (r *Runner) Flush() {
 				c.Differ(p.input, "wf=1 ref=1", checks, "the model run leaves the hypotheses of the per-sequence theorems (wf) or is not a replay of the per-sequence LTS (ref)")
 			}
 			if p.compare {
-				mi := projections(p.world, strings.Fields(FormatTrace(p.impl)))
-				mm := projections(p.world, strings.Fields(parts[0]))
-				owners := map[string]bool{}
-				for o := range mi {
-					owners[o] = true
+				diff := func(w *World, impl []Event) (string, string, string) {
+					mi := projections(w, strings.Fields(FormatTrace(impl)))
+					mm := projections(w, strings.Fields(parts[0]))
+					owners := map[string]bool{}
+					for o := range mi {
+						owners[o] = true
+					}
+					for o := range mm {
+						owners[o] = true
+					}
+					var os []string
+					for o := range owners {
+						os = append(os, o)
+					}
+					sort.Strings(os)
+					for _, o := range os {
+						if a, b := strings.Join(mi[o], " "), strings.Join(mm[o], " "); a != b {
+							return o, a, b
+						}
+					}
+					return "", "", ""
 				}
-				for o := range mm {
-					owners[o] = true
-				}
-				var os []string
-				for o := range owners {
-					os = append(os, o)
-				}
-				sort.Strings(os)
-				agree := true
-				for _, o := range os {
-					a, b := strings.Join(mi[o], " "), strings.Join(mm[o], " ")
-					if a != b {
-						agree = false
-						c.Differ(p.input, o+": "+a, o+": "+b, "events of process "+o+" differ")
-						break
+				o, a, b := diff(p.world, p.impl)
+				if o != "" && p.rerun != nil && r.reruns < 50 {
+					r.reruns++
+					// which goroutine wins a `select` is not the model's business: a disagreement counts
+					// only if the implementation shows it again on a second run of the same scenario
+					if impl2, w2 := p.rerun(); impl2 != nil {
+						if o2, _, _ := diff(w2, impl2); o2 == "" {
+							c.Count("trace.disagreement-not-reproduced-on-a-second-run (scheduling)")
+							o = ""
+						}
 					}
 				}
-				if agree {
+				if o != "" {
+					c.Differ(p.input, o+": "+a, o+": "+b, "events of process "+o+" differ")
+				} else {
 					c.Res.TracesValidated++
 				}
-			} else {
+			} else if !p.racy {
 				c.Count("trace.not-compared(slow run: a gap timer may have fired)")
 			}
 		}
